@@ -640,7 +640,8 @@ func emitErrors(w *world, o *out) {
 					visit(e)
 				}
 			case *ssa.Call:
-				if t.Call.IsInvoke() && t.Call.Method.Name() == "errorKind" {
+				// an interface method without parameters that returns the kind (the error's own say)
+				if t.Call.IsInvoke() && len(t.Call.Args) == 0 && typeStr(t.Call.Method.Type().(*types.Signature).Results().At(0).Type()) == "ldreason.EvalErrorKind" {
 					dynamic++
 				} else {
 					consts = append(consts, "<result of another call>")
